@@ -58,7 +58,8 @@ def main():
                 if len(c['sel']) == 1 and c['op'] != 'combine':
                     call['as_list'] = rng.random() < 0.5
                 calls.append(call)
-            items.append({'nsource': 3, 'nsamples': rng.choice([30, 200]), 'seed': rng.randrange(10 ** 6), 'calls': calls})
+            items.append({'nsource': 3, 'nsamples': rng.choice([30, 200]), 'seed': rng.randrange(10 ** 6), 'calls': calls,
+                          'low': rng.choice([0, 0, 2 ** 30, -(2 ** 30) - 10, 2 ** 20])})       # value domains near the 32-bit range: sums of sources leave it
         got = PC.pipe_eval([{'op': 'gen_calls', 'items': items[i:i + 100]} for i in range(0, len(items), 100)], modules=['gen_ops'])
         flat = []
         for r in got:
